@@ -17,7 +17,8 @@ class Script:
         self.pos = 0
         self.used = set()
         self.pre_bad = {}
-        self.writes = []
+        self.writes = []          # (address, size, value, kind, privileged) of the real run
+        self.reads = []           # (address, size, kind, privileged)
         self.inputs = inputs
         self.log = []
 
@@ -60,8 +61,13 @@ def install_stubs(cpu, inputs, iset):
         if not ok:
             sc.pre_bad.setdefault(what, []).append([x if isinstance(x, (int, bool)) else type(x).__name__ for x in a])
 
+    def how(what):
+        # access kind (MemA 0 / MemU 1, as in contracts.absmem) and the privilege the accessor checks permissions with
+        return (0 if what.startswith('mem_a') else 1), ('unpriv' not in what and (cpu.registers.cpsr.value & 0x1F) != 0x10)
+
     def rd(what):
         def f(address, size, *rest):
+            sc.reads.append((address, size) + how(what))
             chk(what, address, size, *rest)
             n, ent = sc.next(what, address, size)
             if ent is not None and ent[1].endswith('fault'):
@@ -71,7 +77,7 @@ def install_stubs(cpu, inputs, iset):
 
     def wr(what):
         def f(address, size, *rest):
-            sc.writes.append((address, size, rest[-1]))
+            sc.writes.append((address, size, rest[-1]) + how(what))
             chk(what, address, size, *rest)
             n, ent = sc.next(what, address, size)
             if ent is not None and ent[1].endswith('fault'):
@@ -336,7 +342,7 @@ def replay(iset, memarch, nregions, inputs, ob):
             else:
                 from props import c03
                 bad = bad or type(eo).execute is not c03.klass(r.exec_class).execute
-    elif kind in ('decode.class', 'post', 'post.unpred', 'post.pc'):
+    elif kind in ('decode.class', 'post', 'post.unpred', 'post.pc', 'post.banks', 'post.it'):
         from spec import encodings as ENC
         from spec import stepspec as SS
         kname = type(eo).__name__
@@ -358,6 +364,7 @@ def replay(iset, memarch, nregions, inputs, ob):
             shs = sorted(k for k in inputs if k.startswith('xlat') and k.endswith('.shareable'))
             shareable = bool(inputs.get(shs[0])) if shs else False
             st0['oracle.excl_pass'] = bool(inputs.get('excl.local')) and (not shareable or bool(inputs.get('excl.global')))
+            st0['oracle.unknown_store'] = sc.writes[0][2] if sc.writes else 0
             bad = False
 
             class NativeMem:
@@ -366,8 +373,10 @@ def replay(iset, memarch, nregions, inputs, ob):
                 def __init__(self):
                     self.used = set()
                     self.writes = []
+                    self.reads = []
 
                 def read(self, kind, priv, addr, size):
+                    self.reads.append((addr, size, kind, bool(priv)))
                     for j, e in enumerate(sc.accesses):
                         if e is not None and j not in self.used and e[1] == 'R' and e[2] == addr and e[3] == size:
                             self.used.add(j)
@@ -375,7 +384,7 @@ def replay(iset, memarch, nregions, inputs, ob):
                     return 0
 
                 def write(self, kind, priv, addr, size, value):
-                    self.writes.append((addr, size, value))
+                    self.writes.append((addr, size, value, kind, bool(priv)))
             real_writes = []
             for l in sc.log:
                 if '_set' in l:
@@ -394,11 +403,18 @@ def replay(iset, memarch, nregions, inputs, ob):
                 diff = {k: (_h(final[k]), _h(exp[k])) for k in final if k not in STEP.SCRATCH and
                         (final[k] != exp.get(k) if not unk.get(k) else (final[k] & ~unk[k]) != (exp[k] & ~unk[k]))}
                 lines.append('leaf differences (real, spec): %s' % diff)
-                rw = sorted((w[0], w[1], w[2]) for w in sc.writes)
+                rw = sorted(sc.writes)
                 sw = sorted(nm.writes)
+                fmt = lambda ws: [(hex(w[0]), w[1], hex(w[2]), 'MemA' if w[3] == 0 else 'MemU', 'privileged' if w[4] else 'unprivileged') for w in ws]
                 if rw != sw:
-                    lines.append('memory writes real %s spec %s' % ([(hex(a), s_, hex(v)) for a, s_, v in rw], [(hex(a), s_, hex(v)) for a, s_, v in sw]))
-                bad = bad or bool(diff) or exc is not None or rw != sw
+                    lines.append('memory writes real %s spec %s' % (fmt(rw), fmt(sw)))
+                # reads: the specification may read more than the code does (both arms of a conditional), so every real read
+                # has to be one the specification makes with the same kind and privilege
+                rr = [x for x in sc.reads if x not in nm.reads]
+                if rr:
+                    lines.append('memory reads of the real run that the specification does not make (address, size, kind, privileged): %s ; spec reads %s' % (
+                        [(hex(a), s_, k_, p_) for a, s_, k_, p_ in rr], [(hex(a), s_, k_, p_) for a, s_, k_, p_ in nm.reads]))
+                bad = bad or bool(diff) or exc is not None or rw != sw or bool(rr)
     elif kind == 'frame.own':
         lines.append('module-level mutable state changed by the step: %s' % (globals_changed,))
         lines.append(ob.get('detail', ''))
